@@ -402,6 +402,29 @@ func runC13(c *core.Ctx) {
 		}
 	})
 
+	// text that surrounds base32 / base64 strings where they occur in practice (host-name suffixes,
+	// URL parts, address-book syntax, escapes, labels): as prefix, as suffix and as both, around
+	// canonical encodings of the sizes that occur (nothing, a hash, an identity) - a decoder that
+	// strips what it "knows" accepts characters outside the alphabet
+	decor := []string{".b32.i2p", ".i2p", "b32.i2p", ".b32", ".B32.I2P", ".I2P", ".b32.i2p.", ".b32.i2p\n", ".b32.i2p ", ".onion", "http://", "https://", "i2p://", "b32:", "b64:", "base32:", "base64:",
+		"/", ":", "?", "&", "#", "%3D", "%3d", "%0A", "%20", "=", "==", "===", "======", "~", "-", "+", "_", ".", ",", ";", "\"", "'", "<", ">", "[", "]", "(", ")", "{", "}", "0x", "\\n", "\\",
+		" ", "\t", "\x00", "\v", "\f", "\u00a0", "\ufeff", "=\n", "\n=", "AAAA", "aaaa", "host=", "&i2paddresshelper=", "?i2paddresshelper=", ".b32.i2p:80", ".b32.i2p/", "@", "!", "$", "*", "|", "^", "`"}
+	sizes := []int{0, 1, 2, 3, 4, 5, 16, 20, 32, 33, 35, 64, 387, 391}
+	c.Job("surrounding-text", len(decor)*len(decs)*c.N(1, 6), func(i int, r *core.Rand) {
+		d := decs[i%len(decs)]
+		tok := decor[(i/len(decs))%len(decor)]
+		for _, n := range sizes {
+			e := encodeFor(d, r.Bytes(n))
+			c13Judge(c, d, e+tok, "surrounding-text/suffix")
+			c13Judge(c, d, tok+e, "surrounding-text/prefix")
+			c13Judge(c, d, tok+e+tok, "surrounding-text/both")
+			if len(e) > 2 {
+				k := 1 + r.Pick(len(e)-1)
+				c13Judge(c, d, e[:k]+tok+e[k:], "surrounding-text/inside")
+			}
+		}
+	})
+
 	// the encoders are functions of the CONTENT of their argument: the caller refills the same
 	// buffer and encodes again (every length up to 80, where a cache of "the last input" would sit)
 	c.Job("same-buffer-refilled", 81*c.N(2, 20), func(i int, r *core.Rand) {
